@@ -535,12 +535,22 @@ func (p *Prog) armReachesLoop(fn *ssa.Function, node ssa.Value, hdr *ssa.BasicBl
 	if entry == nil || entry == hdr {
 		return "" // arm not entered through a comma-ok test on the node: nothing to decide here
 	}
+	// an option may select between two loops over the members (one that filters, one that does not): any loop over a map of the
+	// function counts as "the members are ranged over"; an option never excuses leaving without a loop
+	otherHdr := map[*ssa.BasicBlock]bool{}
+	if wantMap {
+		for _, l := range findMapLoops(fn) {
+			if l.next != nil && l.header != hdr {
+				otherHdr[l.header] = true
+			}
+		}
+	}
 	seen := map[*ssa.BasicBlock]bool{entry: true}
 	work := []*ssa.BasicBlock{entry}
 	for len(work) > 0 {
 		b := work[len(work)-1]
 		work = work[:len(work)-1]
-		if len(b.Instrs) == 0 {
+		if len(b.Instrs) == 0 || otherHdr[b] {
 			continue
 		}
 		last := b.Instrs[len(b.Instrs)-1]
@@ -551,7 +561,7 @@ func (p *Prog) armReachesLoop(fn *ssa.Function, node ssa.Value, hdr *ssa.BasicBl
 		if ifi, ok := last.(*ssa.If); ok {
 			cs := cz.of(ifi.Cond)
 			for _, a := range allowed {
-				if strings.Contains(cs, a) {
+				if strings.Contains(cs, a) && !wantMap {
 					skip = 2
 				}
 			}
